@@ -13,6 +13,7 @@ macro_rules! one {
             c: &CloneYes,
             g: &DbgYes,
             caps: CAPS_FULL,
+            v: None,
             name_override: Some(name),
             conv: None,
         }) as Box<dyn Subject>);
